@@ -1,4 +1,5 @@
 import TRV.Proofs.Sound
+import TRV.Proofs.Engine
 /-!
 # C04 — Destination marking: only a proof-of-arrival reply from the target
 
@@ -130,6 +131,36 @@ theorem c04_sack_dest_iff {s : SackSt} {pkt : Bytes} {t : Nat} {a : Bytes} {d : 
     · have := hq true h1; simpa using this
     · simp only [Bool.true_and] at h2; exact hdir h2
 
+/-- the mark survives the engine unmixed ("the reply USED for the hop"): in the parallel engine's
+    result the slot for TTL `t` carries the destination mark exactly when one of the accepted replies
+    for `t` is a destination reply, and the slot then IS one accepted reply in its entirety — the
+    address and RTT are that reply's, never an earlier router's with the mark added -/
+theorem c04_engine_slot_dest_iff (σ : List Engine.Probe) (t : Nat) (q : Engine.Probe)
+    (h : Engine.merge σ t = some q) :
+    (q ∈ σ ∧ q.ttl = t) ∧ (q.dest = true ↔ ∃ p ∈ σ, p.ttl = t ∧ p.dest = true) := by
+  rw [TRV.Proofs.merge_eq_best] at h
+  unfold Spec.best at h
+  cases hfd : Spec.firstDest σ t with
+  | some r =>
+    rw [hfd] at h
+    simp only [Option.some.injEq] at h
+    subst h
+    have h1 := List.find?_some hfd
+    have h2 := List.mem_of_find?_eq_some hfd
+    simp at h1
+    exact ⟨⟨h2, h1.1⟩, ⟨fun _ => ⟨r, h2, h1.1, h1.2⟩, fun _ => h1.2⟩⟩
+  | none =>
+    rw [hfd] at h
+    simp only at h
+    have h1 := List.find?_some h
+    have h2 := List.mem_of_find?_eq_some h
+    simp at h1
+    refine ⟨⟨h2, h1⟩, ⟨fun hd => ⟨q, h2, h1, hd⟩, ?_⟩⟩
+    rintro ⟨p, hp, hpt, hpd⟩
+    exfalso
+    have := List.find?_eq_none.mp hfd p hp
+    simp [hpt, hpd] at this
+
 #print axioms c04_icmp4_dest_iff
 #print axioms c04_icmp6_dest_from_target
 #print axioms c04_udp4_dest_iff
@@ -137,4 +168,5 @@ theorem c04_sack_dest_iff {s : SackSt} {pkt : Bytes} {t : Nat} {a : Bytes} {d : 
 #print axioms c04_tcp_dest_iff
 #print axioms c04_tcp_direct_from_target
 #print axioms c04_sack_dest_iff
+#print axioms c04_engine_slot_dest_iff
 end TRV.Props.C04
